@@ -103,3 +103,9 @@ Definition frame_ret (sk : skeleton) (ps : list var) (r : var) : list Z :=
 
 (* compact printing of a pair whose two snapshots are the SAME literal (the common case: nothing changed) *)
 Definition dup63 (q : Z * list int * Z * list int) : (Z * list int * Z * list int) * (Z * list int * Z * list int) := (q, q).
+
+(* the static obligation and the flow-insensitive alias certificate of one skeleton in ONE evaluation (the skeleton literal is
+   parsed once): frame_ret ... ++ [100] when the certificate E passes FlowIns.fi_ok, ++ [101] otherwise *)
+From EsVerif.C15 Require Import FlowIns.
+Definition frame_ret_cert (sk : skeleton) (ps : list var) (r : var) (E : amap) : list Z :=
+  frame_ret sk ps r ++ [if fi_ok sk ps E then 100 else 101].
